@@ -114,6 +114,12 @@ func corpusFiles() []gram.Named2 {
 					out = append(out, gram.Named2{Name: "family+actions:" + n.Name + "/token-number-3e12", Text: bigNum, Epilogue: epi, NoEdits: true})
 				}
 			}
+			if n.Name == "ambig-expr-prec" {
+				// a block comment at the beginning of the program section (prefixes end inside it)
+				cm := "\n/* a block comment in the program section, with a brace { and a quote ' */\n"
+				at := strings.LastIndex(text, "\n%%\n") + len("\n%%\n")
+				out = append(out, gram.Named2{Name: "family+actions:" + n.Name + "/block-comment-in-epilogue", Text: text[:at] + cm + text[at:], Epilogue: cm + epi})
+			}
 			if n.Name == "nullable-chain" {
 				// the same file with program text starting on the line of the second %% (legal yacc)
 				at := strings.LastIndex(text, "\n%%\n") + len("\n%%")
